@@ -7,6 +7,7 @@ import NanoVerif.Model.CopClient
 import NanoVerif.Model.Gate
 import NanoVerif.Model.Runtime
 import NanoVerif.Model.Compile
+import NanoVerif.Model.Sem
 namespace NanoVerif.Driver
 
 def natList (ws : List String) : Option (List Nat) := ws.mapM String.toNat?
@@ -346,6 +347,30 @@ def compileCmd (hex : String) : String :=
     | .error (.cg e) => cgErrText e
     | .ok m => "ok " ++ hexOr (serialize m)
 
+def faultText : Sem.Fault → String
+  | .assertFail => "assert" | .oob => "oob" | .divZero => "divzero" | .typeError => "type-error"
+  | .undefinedVar => "undefined-variable" | .undefinedFn => "undefined-function" | .fuel => "fuel" | .unsupported => "unsupported"
+
+/-- `sem <vm|native> <fuel> <hex source>`: output and outcome under the reference semantics -/
+def semCmd (ws : List String) : String :=
+  match ws with
+  | [c, fu, hex] =>
+    match fu.toNat?, ofHex hex with
+    | some fuel, some bs =>
+      match lex bs with
+      | .error _ => "lex-error"
+      | .ok lo =>
+        match parseProgram lo.toks with
+        | .error .unsupported => "unsupported parse"
+        | .error .fuel => "model-fuel"
+        | .error _ => "parse-error"
+        | .ok p =>
+          let cfg := if c == "native" then Sem.nativeCfg else Sem.vmCfg
+          let o := Sem.runProgram cfg p fuel
+          s!"out={hexOr o.out} res=" ++ (match o.res with | .exit n => s!"exit {n}" | .fault f => "fault " ++ faultText f)
+    | _, _ => "bad-op"
+  | _ => "bad-op"
+
 def handle (line : String) : String :=
   match line.splitOn " " with
   | "isa.dec" :: [hex] => isaDec hex
@@ -364,6 +389,7 @@ def handle (line : String) : String :=
   | "gc" :: [ops] => gcCmd ops
   | "lex" :: [hex] => lexCmd hex
   | "compile" :: [hex] => compileCmd hex
+  | "sem" :: ws => semCmd ws
   | _ => "bad-op"
 
 end NanoVerif.Driver
